@@ -243,8 +243,32 @@ def laneAMime : List String → String
     | _, _ => "bad-op"
   | _ => "bad-op"
 
+/-- `c04ahead <H|G> <B> <segments>`: `_readResponse`'s head over the explicit-array reader
+(`BufAlias.aparseHead`): `rej:<class>` / `ok <head fields> rest=<hex>` / `n/a` (header block
+starting with a blank). -/
+def laneAHead : List String → String
+  | [meth, b, segs] =>
+    match b.toNat?, decodeList segs with
+    | some B, some ss =>
+      if B < 16 then "bad-op"
+      else if meth != "G" && meth != "H" then "bad-op"
+      else
+        let src : List BufLine.Chunk := ss.map fun d => ⟨d, none⟩
+        match BufAlias.aparseHead B (meth == "H") (BufAlias.ARd.init B src) with
+        | none => "n/a"
+        | some (.error e) => "rej:" ++ renderClass e
+        | some (.ok (m, a)) =>
+          "ok proto=" ++ encodeHex m.sl.proto ++ " status=" ++ encodeHex m.sl.status ++
+          " code=" ++ toString m.sl.code ++ " ver=" ++ toString m.sl.major ++ "." ++ toString m.sl.minor ++
+          " hdr=" ++ renderMap m.header ++ " cl=" ++ toString m.contentLength ++
+          " te=" ++ renderBool m.teChunked ++ " close=" ++ renderBool m.close ++
+          " framing=" ++ renderFraming m.framing ++ " rest=" ++ encodeHex a.rd.bytes
+    | _, _ => "bad-op"
+  | _ => "bad-op"
+
 def lanes : List (String × (List String → String)) := [
   ("c04alias", laneAlias),
+  ("c04ahead", laneAHead),
   ("c04amime", laneAMime),
   ("c04parse", laneParse),
   ("c04chunk", laneChunk),
